@@ -281,7 +281,11 @@ func (in *Inst) frameCheck(con *Contract, rp retPoint, ri int) {
 			for bi, bx := range mi.But {
 				// membut(x): the array of x is exactly as at entry
 				sv := env.eval(bx)
-				goal := sEq(sSel(rp.st.get("Mem"), slcArr(sv.T)), sSel(entry.get("Mem"), slcArr(sv.T)))
+				a := sv.T
+				if sv.K == KSlc {
+					a = slcArr(sv.T)
+				}
+				goal := sEq(sSel(rp.st.get("Mem"), a), sSel(entry.get("Mem"), a))
 				e.obls = append(e.obls, &Obligation{Name: fmt.Sprintf("%s#frame:membut:%d@ret%d", e.fname, bi, ri), Kind: "frame", Pos: rp.pos, Step: len(e.steps), Reach: rp.st.reach, Goal: goal, Blk: rp.blk})
 			}
 		case modGhost:
